@@ -132,11 +132,22 @@ func (g *Gen) solveOne(ob *Obligation, dir string, header string, timeoutMS int,
 		// vacuity guards only fail on 'unsat', which (when it happens) is found quickly
 		quick = 1000
 	}
+	if strings.Contains(ob.Name, "#kf-") && strings.Contains(ob.Name, "#assert#") {
+		// call-site clause of a recorded known finding: at a site the finding is not about, the goal is ground
+		// and discharges at once; at a site it is about, it is expected to stay open
+		quick = 600
+	}
 	if quick > timeoutMS {
 		quick = timeoutMS
 	}
 	start := time.Now()
-	r := runSolver(context.Background(), solvers[0], files["z3-new"], quick, seed, false)
+	var r solveResult
+	if ob.Verdict == "pending" {
+		// pass B: the short single-solver stage was already run in pass A
+		r = solveResult{verdict: "unknown", solver: solvers[0].name}
+	} else {
+		r = runSolver(context.Background(), solvers[0], files["z3-new"], quick, seed, false)
+	}
 	if r.verdict == "unsat" || r.verdict == "sat" {
 		g.finish(ob, r, start)
 		return
@@ -145,11 +156,25 @@ func (g *Gen) solveOne(ob *Obligation, dir string, header string, timeoutMS int,
 		g.finish(ob, r, start)
 		return
 	}
+	if strings.Contains(ob.Name, "#kf-") {
+		// a clause labelled kf-... states a recorded known finding: it is expected NOT to discharge on the
+		// pinned tree (its failure prints KNOWN-FINDING, not VIOLATION), so the portfolio budget is not spent on
+		// it; if the defect is repaired the short stage discharges it and the entry is reported as resolved
+		r.verdict = "unknown"
+		g.finish(ob, r, start)
+		return
+	}
 	if ob.Expect == "sat" || ob.Abstract {
 		// vacuity guard: only 'unsat' is a failure; quantified contexts rarely give 'sat', so do not
 		// spend the full budget (inconclusive is reported as such). Obligations of abstracted / partial
 		// functions that are decided only where possible get the short stage as well.
 		r.verdict = "unknown"
+		g.finish(ob, r, start)
+		return
+	}
+	if g.firstPassOnly {
+		// pass A of solveAll: one solver per obligation, full parallelism; the portfolio is run in pass B
+		r.verdict = "pending"
 		g.finish(ob, r, start)
 		return
 	}
@@ -211,6 +236,10 @@ func (g *Gen) solveAll(obls []*Obligation, dir string, timeoutMS, seed, par int)
 	header := g.header()
 	var wg sync.WaitGroup
 	sem := make(chan struct{}, par)
+	// pass A: every obligation once on z3-new alone (short budget), one process per slot; pass B: the portfolio
+	// (three solver processes per obligation) only for what pass A left open, with a third of the slots - so the
+	// machine is never oversubscribed threefold and verdicts depend less on load
+	g.firstPassOnly = true
 	for _, ob := range obls {
 		ob := ob
 		wg.Add(1)
@@ -222,13 +251,45 @@ func (g *Gen) solveAll(obls []*Obligation, dir string, timeoutMS, seed, par int)
 		}()
 	}
 	wg.Wait()
+	g.firstPassOnly = false
+	if os.Getenv("VERIF_TIMING") != "" {
+		n := 0
+		for _, ob := range obls {
+			if ob.Verdict == "pending" {
+				n++
+			}
+		}
+		fmt.Printf("timing: pass A done at %s, %d pending for the portfolio\n", time.Now().Format("15:04:05"), n)
+	}
+	parB := par / 3
+	if parB < 2 {
+		parB = 2
+	}
+	semB := make(chan struct{}, parB)
+	for _, ob := range obls {
+		if ob.Verdict != "pending" {
+			continue
+		}
+		ob := ob
+		wg.Add(1)
+		semB <- struct{}{}
+		go func() {
+			defer wg.Done()
+			defer func() { <-semB }()
+			g.solveOne(ob, dir, header, timeoutMS, seed)
+		}()
+	}
+	wg.Wait()
 	// stage 3: obligations left undecided are retried with little parallelism and three times the budget, so
 	// that a verdict does not depend on how loaded the machine was during the parallel pass
 	var again []*Obligation
 	for _, ob := range obls {
-		if ob.Expect == "unsat" && !ob.Abstract && (ob.Verdict == "unknown" || ob.Verdict == "timeout") {
+		if ob.Expect == "unsat" && !ob.Abstract && !strings.Contains(ob.Name, "#kf-") && (ob.Verdict == "unknown" || ob.Verdict == "timeout") {
 			again = append(again, ob)
 		}
+	}
+	if os.Getenv("VERIF_TIMING") != "" {
+		fmt.Printf("timing: pass B done at %s, %d for the retry stage\n", time.Now().Format("15:04:05"), len(again))
 	}
 	if len(again) == 0 || len(again) > 40 {
 		return
